@@ -191,10 +191,28 @@ fn ids_of<T: Elem>(s: &[T]) -> Vec<u32> {
         .collect()
 }
 
-fn view<T: Elem, const N: usize>(o: &Obj<T, N>) -> String {
+/// `as_mut_slice` must address exactly the elements `as_slice` does (same start, same length);
+/// anything else is rendered as a visible difference (the model has one view per object)
+fn mut_suffix<T>(shared: (*const T, usize), unique: &mut [T]) -> String {
+    if shared.1 == unique.len() && (shared.1 == 0 || shared.0 == unique.as_ptr()) {
+        String::new()
+    } else {
+        format!("!as_mut_slice({}:{})", (unique.as_ptr() as isize).wrapping_sub(shared.0 as isize), unique.len())
+    }
+}
+
+fn view<T: Elem, const N: usize>(o: &mut Obj<T, N>) -> String {
     match o {
-        Obj::C(c) => show_ids(&ids_of(c.as_slice())),
-        Obj::B(b) => format!("{}#{}{}", show_ids(&ids_of(b.as_slice())), b.len(), show_bool(b.is_full())),
+        Obj::C(c) => {
+            let sh = (c.as_slice().as_ptr(), c.as_slice().len());
+            let m = mut_suffix(sh, c.as_mut_slice());
+            format!("{}{}", show_ids(&ids_of(c.as_slice())), m)
+        }
+        Obj::B(b) => {
+            let sh = (b.as_slice().as_ptr(), b.as_slice().len());
+            let m = mut_suffix(sh, b.as_mut_slice());
+            format!("{}#{}{}{}", show_ids(&ids_of(b.as_slice())), b.len(), show_bool(b.is_full()), m)
+        }
         Obj::Gone => "-".into(),
     }
 }
@@ -311,7 +329,7 @@ fn exec<T: Elem, const N: usize>(kind: u8, ops: &[Op]) -> Option<(String, Kinds)
             }
             _ => return None,
         };
-        let v = view(&objs[k]);
+        let v = view(&mut objs[k]);
         let evs = take_log();
         per_op.push(format!("{}/{}/{}", ret, v, show_evs(&evs)));
     }
